@@ -567,6 +567,21 @@ def det_traces(cfg, tid0):
     return traces
 
 
+def edge_traces(tid0, r):
+    """randrange with descending steps, step 0 and empty ranges; tapes that make the largest and the smallest index come up"""
+    traces = []
+    cases = [(10, 0, -1), (9, 0, -3), (0, -12, -4), (0, 1, -1), (5, 5, -2), (7, 2, -2), (3, -3, -1), (0, 10, 0), (5, 5, 1), (6, 5, 1), (5, 6, 3), (0, 9, 4), (1, 100, 7)]
+    tapes = [[0xff] * 4 + [0] * 8, [0] * 12, [0x0a, 0x09, 0x0b] + [0] * 9, [3, 4, 5, 2] + [0] * 8, [r.randrange(256) for _ in range(12)], [0x0c, 0x0b, 0x0a, 9, 8, 7, 6, 5, 4, 3, 2, 1]]
+    for j, (a, b, st) in enumerate(cases):
+        runs = []
+        for tp in tapes:
+            t = Tape(tp + [(i * 37 + 1) % 256 for i in range(64)])
+            v, exc = outcome(lambda: StrongRandom(randfunc=t).randrange(a, b, st))
+            runs.append(dict(tape=list(tp), val=int(v) if v is not None else 0, exc=exc, drawn=t.pos))
+        traces.append(dict(tid=tid0 + j + 1, family="edge", api="randrange", n=0, p1=a, p2=b, p3=st, runs=runs))
+    return traces
+
+
 def main():
     job = json.load(sys.stdin)
     cfg = job["cfg"]
@@ -577,6 +592,7 @@ def main():
     traces += direct_big(job["btapes"], job["bittapes"], cfg, 2000000, r)
     traces += consumer_traces(job["btapes"], cfg, 3000000, r)
     traces += det_traces(cfg, 4000000)
+    traces += edge_traces(5000000, r)
     json.dump(traces, sys.stdout)
 
 
